@@ -75,7 +75,10 @@ def one(ctx, data, meta, html, tmpdir, rng, edits=True):
             try:
                 with docx2python(io.BytesIO(data), html=html) as d:
                     rd = d.docx_reader; expect = {}; marks = []
+                    seen = set()
                     for f in rd.content_files():
+                        if f.path in seen: continue        # a part related twice: the first File is the one handed out for editing
+                        seen.add(f.path)
                         root = f.root_element
                         def hidden(t):
                             for a in t.iterancestors():
@@ -112,6 +115,9 @@ def one(ctx, data, meta, html, tmpdir, rng, edits=True):
 def run(ctx):
     tmpdir = tempfile.mkdtemp(prefix='d2pv-c16-')
     try:
+        from gen.probes import probes
+        for name, data in probes('C16'):
+            ctx.count('probe'); one(ctx, data, None, False, tmpdir, random.Random(1))
         n = 45 if ctx.quick else 3000
         for pkg, meta, rng in stream(ctx, PROF, n):
             if rng.random() < 0.6: pkg.add('customXml/item%d.xml' % rng.randint(2, 9), '<?xml version="1.0"?><a:root xmlns:a="urn:x"><a:v>1</a:v></a:root>')
